@@ -566,7 +566,14 @@ class HttpProxyPlugin(HttpProtocolHandlerPlugin):
                 self.pipeline_response = HttpParser(
                     httpParserTypes.RESPONSE_PARSER,
                 )
-            self.pipeline_response.parse(raw)
+            try:
+                self.pipeline_response.parse(raw)
+            except Exception:
+                # Not every byte following a response starts another
+                # response, e.g. body of a response delimited by connection
+                # close.  Such data is still relayed to the client as is.
+                self.pipeline_response = None
+                break
             if not self.pipeline_response.is_complete:
                 break
             # Bytes following a complete response belong to the next one
